@@ -102,8 +102,37 @@ func openDamaged(c *core.Case, cfg Config, states map[uint64]*State, img []byte,
 		w.CloseFile()
 		return false
 	}
-	w.CloseFile()
 	res.Add("fallback_opens_verified", 1)
+	if res.Stats["fallback_opens_verified"]%25 == 7 {
+		// the next commit must write the other slot: the header this state was
+		// recovered from has to survive until that commit is complete, or a torn
+		// header write would leave no valid header at all
+		slot := 1
+		if expect == &h0 {
+			slot = 0
+		}
+		before := append([]byte(nil), img[slot*ps:slot*ps+HdrSize]...)
+		commits := w.Commits
+		ok := w.Begin(txfile.TxOptions{}) && w.Alloc(1, 1) && w.End(OCommit)
+		if !ok {
+			for _, v := range sub.Violations {
+				v.Message = what + ", commit after the recovery: " + v.Message
+				res.Violations = append(res.Violations, v)
+			}
+			res.Status = core.Violated
+			w.CloseFile()
+			return false
+		}
+		if w.Commits > commits {
+			now := w.Disk.Snapshot()
+			if !bytes.Equal(now[slot*ps:slot*ps+HdrSize], before) {
+				w.CloseFile()
+				return fail("commit-overwrote-active-header", "the first commit after the recovery wrote its header into slot %d, the slot of the header (txid %d) the state was recovered from; a torn write of it would have left no valid header", slot, expect.Txid)
+			}
+			res.Add("commits_after_recovery_checked", 1)
+		}
+	}
+	w.CloseFile()
 	return true
 }
 
